@@ -188,6 +188,8 @@ def e2e_config(draw, front=("single", "single", "joint"), max_N=3, max_W=4, max_
         "mp_env": draw(st.sampled_from([False, False, True])),
         "quantise": draw(st.sampled_from([None, None, None, None, 1.0, 2.0])),
         "stray_pair": draw(st.sampled_from([False, False, False, False, True])),
+        "flag_form": draw(st.sampled_from(["bool", "bool", "np.bool_", "int"])),
+        "first_series_dtype": draw(st.sampled_from([None, None, None, None, None, "float32", "int64"])),      # how the caller spells True / False
         "series_kind": draw(st.sampled_from([None, None, None, None, None, "subclass", "masked", "memmap_ro", "memmap_rw"])),
         # how the caller hands things over: the documented positional order (data, window_size, num_clusters) instead of
         # keywords; for the joint front end, any iterable of arrays (the front end says so), not only a list
